@@ -649,6 +649,43 @@ func c04AskerDeath(p *Program, r *Report) {
 		r.Check(okOrder && len(calls) > 0, "pending asks are completed before the OnKill handler runs", firstPos(g, calls), "every run of the user's behaviour in the kill routine is dominated by the completion of the dying actor's pending asks")
 	}
 	r.Check(ok, "kill routine completes the dying actor's pending asks", firstPos(g, calls), "on every terminating path the kill routine closes the futures registered for its own path with ErrorActorDeaded ("+desc+")")
+	// … and never after the actor's path has been released: the sweep is keyed by the asker's PATH. Once the registry entry is gone
+	// and the parent has been told, the parent may re-create the actor under the same name; a sweep that runs after that completes
+	// the asks of the living successor with "actor dead" and its real replies become dead letters. So in the step that releases
+	// the path no sweep is reachable after the release, and no later step of the chain sweeps at all.
+	if lc.Cleanup != nil && lc.RemoveRegistry != nil {
+		cg := p.igxSkip(lc.Cleanup, map[*ssa.Function]bool{f.RemoveBy: true, lc.RemoveRegistry: true})
+		rel := nodesWhere(cg, func(in ssa.Instruction) bool {
+			c := callOf(in)
+			return c != nil && c.StaticCallee() == lc.RemoveRegistry
+		})
+		late := false
+		var latePos token.Pos
+		for rn := range rel {
+			after := cg.ReachAfter(rn, nil, nil)
+			for i, in := range cg.Nodes {
+				if c := callOf(in); c != nil && c.StaticCallee() == f.RemoveBy && after[i] {
+					late, latePos = true, in.Pos()
+				}
+			}
+		}
+		past := false
+		for _, st := range lc.Chain.Steps {
+			for _, sf := range st.Funcs {
+				if sf == lc.Cleanup {
+					past = true
+					continue
+				}
+				if past && p.mayDo(sf, func(in ssa.Instruction) bool { c := callOf(in); return c != nil && c.StaticCallee() == f.RemoveBy }, 2, map[*ssa.Function]bool{}) {
+					late, latePos = true, sf.Pos()
+				}
+			}
+		}
+		if latePos == token.NoPos {
+			latePos = lc.Cleanup.Pos()
+		}
+		r.Check(len(rel) > 0 && !late, "no sweep of pending asks after the path was released", latePos, "the sweep is keyed by the asker's path: in the step that removes the registry entry no sweep is reachable after the removal, and no later step of the kill chain sweeps — a same-name successor's asks are never completed by its predecessor")
+	}
 	// the routine closes every future found for that path
 	rg := p.ig(f.RemoveBy)
 	cl := nodesWhere(rg, func(in ssa.Instruction) bool {
